@@ -3,6 +3,7 @@ import Driver.Fmt
 import Driver.Queue
 import Driver.Sock
 import Driver.Holder
+import Driver.Macros
 import Std.Data.HashMap
 import Std.Data.HashSet
 /-!
@@ -42,10 +43,12 @@ def dispatch (prop : String) (line : String) : Verdict :=
     | some "std" => FmtE.runStd prop f obsS
     | some "queue" => QueueE.runQueue prop f obsS
     | some "qstress" => QueueE.runStress prop f obsS
+    | some "queue0" => QueueE.runQueue0 prop f obsS
     | some "sock" => SockE.runSock prop f obsS
     | some "sockmt" => SockE.runMt prop f obsS
     | some "socklock" => SockE.runLock prop f obsS
     | some "holder" => HolderE.runHolder prop f obsS
+    | some "mac" => MacrosE.runMac prop f obsS
     | _ => badCase
   | _ => badCase
 
